@@ -1,9 +1,14 @@
 use crate::rt::synchronize::Synchronize;
+use crate::rt::thread;
 use std::{any::Any, collections::HashMap};
 
 pub(crate) struct Set {
     /// Registered statics.
     statics: Option<HashMap<StaticKeyId, StaticValue>>,
+
+    /// Statics whose initialiser is currently running, with the threads that
+    /// wait for it to finish.
+    initializing: HashMap<StaticKeyId, Vec<thread::Id>>,
 }
 
 #[derive(Eq, PartialEq, Hash, Copy, Clone)]
@@ -19,6 +24,7 @@ impl Set {
     pub(crate) fn new() -> Set {
         Set {
             statics: Some(HashMap::new()),
+            initializing: HashMap::new(),
         }
     }
 
@@ -28,6 +34,37 @@ impl Set {
             "lazy_static was not dropped during execution"
         );
         self.statics = Some(HashMap::new());
+        self.initializing.clear();
+    }
+
+    /// Claim the initialisation of `key`. Returns `false` if another thread
+    /// is already running the initialiser; `thread` is then registered to be
+    /// woken when it is done.
+    pub(crate) fn start_init<T: 'static>(
+        &mut self,
+        key: &'static crate::lazy_static::Lazy<T>,
+        thread: thread::Id,
+    ) -> bool {
+        match self.initializing.get_mut(&StaticKeyId::new(key)) {
+            Some(waiters) => {
+                waiters.push(thread);
+                false
+            }
+            None => {
+                self.initializing.insert(StaticKeyId::new(key), Vec::new());
+                true
+            }
+        }
+    }
+
+    /// The initialiser of `key` is done; returns the threads waiting for it.
+    pub(crate) fn finish_init<T: 'static>(
+        &mut self,
+        key: &'static crate::lazy_static::Lazy<T>,
+    ) -> Vec<thread::Id> {
+        self.initializing
+            .remove(&StaticKeyId::new(key))
+            .unwrap_or_default()
     }
 
     pub(crate) fn drop(&mut self) -> HashMap<StaticKeyId, StaticValue> {
